@@ -92,12 +92,12 @@ harnesses! {
         assert!(u.to_comp().to_bits() == oracle::iupac_comp(a) | oracle::iupac_comp(b), "C12.symbol.complement_distributes_over_union");
         reach!(a & b == 0 && a != 0 && b != 0, "disjoint");
     }
-    fn c12_q_or_0_4_n2 [5] { bitop!(0, 4, 2, true) }
-    fn c12_q_and_15_1_n2 [5] { bitop!(15, 1, 2, false) }
-    fn c12_q_or_15_7_n3 [5] { bitop!(15, 7, 3, true) }
-    fn c12_t_and_0_15_n3 [5] { bitop!(0, 15, 3, false) }
-    fn c12_t_or_1_1_n3 [5] { bitop!(1, 1, 3, true) }
-    fn c12_t_and_14_3_n4 [6] { bitop!(14, 3, 4, false) }
+    fn c12_q_or_0_4_n2 [10] { bitop!(0, 4, 2, true) }
+    fn c12_q_and_15_1_n2 [10] { bitop!(15, 1, 2, false) }
+    fn c12_q_or_15_7_n3 [10] { bitop!(15, 7, 3, true) }
+    fn c12_t_and_0_15_n3 [10] { bitop!(0, 15, 3, false) }
+    fn c12_t_or_1_1_n3 [10] { bitop!(1, 1, 3, true) }
+    fn c12_t_and_14_3_n4 [10] { bitop!(14, 3, 4, false) }
     fn c12_q_empty_ops [3] {
         let w = any_words::<2>();
         let s = arr::<Iupac, 32, 2>(w);
@@ -106,14 +106,14 @@ harnesses! {
         assert!(s[3..3].contains(&s[20..20]), "C12.contains.empty_contains_empty");
         reach!("end");
     }
-    fn c12_q_owned_or_1_9_n2 [5] { owned_bitop!(1, 9, 2, true) }
-    fn c12_t_owned_and_15_0_n2 [5] { owned_bitop!(15, 0, 2, false) }
+    fn c12_q_owned_or_1_9_n2 [10] { owned_bitop!(1, 9, 2, true) }
+    fn c12_t_owned_and_15_0_n2 [10] { owned_bitop!(15, 0, 2, false) }
 
-    fn c12_q_contains_0_2_5_2 [5] { contains!(0, 2, 5, 2, 0) }
-    fn c12_q_contains_15_2_1_2 [5] { contains!(15, 2, 1, 2, 0) }
-    fn c12_q_contains_len_mismatch [5] { contains!(0, 2, 5, 3, 0) }
-    fn c12_q_contains_owned_1_2_9_2 [5] { contains!(1, 2, 9, 2, 1) }
-    fn c12_t_contains_3_3_14_3 [6] { contains!(3, 3, 14, 3, 0) }
-    fn c12_t_contains_len_mismatch_shorter [5] { contains!(4, 3, 9, 2, 0) }
-    fn c12_t_contains_owned_15_3_0_3 [6] { contains!(15, 3, 0, 3, 1) }
+    fn c12_q_contains_0_2_5_2 [10] { contains!(0, 2, 5, 2, 0) }
+    fn c12_q_contains_15_2_1_2 [10] { contains!(15, 2, 1, 2, 0) }
+    fn c12_q_contains_len_mismatch [10] { contains!(0, 2, 5, 3, 0) }
+    fn c12_q_contains_owned_1_2_9_2 [10] { contains!(1, 2, 9, 2, 1) }
+    fn c12_t_contains_3_3_14_3 [10] { contains!(3, 3, 14, 3, 0) }
+    fn c12_t_contains_len_mismatch_shorter [10] { contains!(4, 3, 9, 2, 0) }
+    fn c12_t_contains_owned_15_3_0_3 [10] { contains!(15, 3, 0, 3, 1) }
 }
